@@ -78,6 +78,17 @@ fn in_publish(qos: BoxedStrategy<u8>, pid: BoxedStrategy<u16>, target: BoxedStra
 }
 
 /// subscribe + SUBACK + stream(): a subscription whose stream exists (macro event)
+/// subscribe + SUBACK + stream()
+fn sub_ready_events() -> Vec<Ev> {
+    vec![
+        Ev::Start { h: 0, kind: OpKind::Sub(0), settle: false, solo: false },
+        Ev::Settle,
+        Ev::In(Inbound::Ack { sel: 65535, deco: Deco::default() }),
+        Ev::Settle,
+        Ev::MakeStream { sel: 65535 },
+    ]
+}
+
 fn sub_ready() -> BoxedStrategy<Vec<Ev>> {
     (0u8..4, any::<bool>())
         .prop_map(|(n, with_stream)| {
@@ -623,6 +634,32 @@ impl Property for C08 {
 
     fn cases(tier: Tier) -> u32 {
         tier.pick(20_000, 150_000)
+    }
+
+    /// a consumer that lags: every message must still be acknowledged when hundreds or thousands
+    /// are waiting in a stream that is not polled
+    fn exhaustive(tier: Tier, worker: usize, workers: usize) -> Box<dyn Iterator<Item = Scenario>> {
+        let mut v = vec![];
+        let top = if tier == Tier::Thorough { 13 } else { 11 };
+        let mut k = 0;
+        for p in 6..=top {
+            for d in [-1i64, 0, 1, 2] {
+                k += 1;
+                if k % workers != worker {
+                    continue;
+                }
+                let n = ((1i64 << p) + d) as usize;
+                let mut events = sub_ready_events();
+                for i in 0..n {
+                    events.push(Ev::In(Inbound::Publish { qos: if i % 7 == 0 { 1 } else { 0 }, dup: false, retain: false, pid: 0, target: Target::Sub(0), payload_len: 1, props: 0 }));
+                }
+                for q in [1u8, 2, 1, 2] {
+                    events.push(Ev::In(Inbound::Publish { qos: q, dup: false, retain: false, pid: 0, target: Target::Sub(0), payload_len: 2, props: 0 }));
+                }
+                v.push(Scenario { receive_max: None, max_packet_size: None, id_offset: 0, prologue: 0, events });
+            }
+        }
+        Box::new(v.into_iter())
     }
 
     fn assumptions() -> Vec<String> {
